@@ -237,9 +237,37 @@ func (q *quoteAn) sliceItems(v ssa.Value) ([]qitem, bool) {
 		}
 		return out, true
 	case *ssa.MakeSlice:
-		if k, ok := constByte(e.Len); ok && k == 0 {
-			return nil, true
+		k, ok := constByte(e.Len)
+		if !ok || k > 8 {
+			return nil, false
 		}
+		// make([]byte, k, …) with its k elements set by constant-index stores in the
+		// block that makes it (an element never stored is the zero byte)
+		out := make([]qitem, k)
+		stored := make([]bool, k)
+		for _, ref := range *e.Referrers() {
+			ia, ok := ref.(*ssa.IndexAddr)
+			if !ok {
+				continue
+			}
+			c, ok := ia.Index.(*ssa.Const)
+			if !ok {
+				return nil, false
+			}
+			i, _ := constant.Int64Val(c.Value)
+			for _, r2 := range *ia.Referrers() {
+				st, ok := r2.(*ssa.Store)
+				if !ok {
+					continue // a read
+				}
+				it, ok := q.item(st.Val)
+				if !ok || it.elem || i < 0 || i >= int64(k) || st.Block() != e.Block() || stored[i] {
+					return nil, false
+				}
+				out[i], stored[i] = it, true
+			}
+		}
+		return out, true
 	}
 	return nil, false
 }
